@@ -542,6 +542,16 @@ impl<'t, 'd> GGen<'t, 'd> {
         G::RecRef(ok[self.t.pick(ok.len())])
     }
 
+    /// a recursive definition at the root (C12)
+    pub fn force_rec(&mut self, d: u32) -> G {
+        let id = self.next_rec;
+        self.next_rec += 1;
+        self.recs.push((id, false));
+        let body = self.gen_rec_body(d);
+        self.recs.pop();
+        G::Rec(id, b(body))
+    }
+
     fn gen_rec_body(&mut self, d: u32) -> G {
         // shapes that actually recurse: delimited self-reference, prefix chain, list
         let shape = self.t.weighted(&[4, 3, 3, 2]);
@@ -746,6 +756,10 @@ impl<'t, 'd> GGen<'t, 'd> {
 /// context are ignored).
 pub fn sample(g: &G, t: &mut Tape, alpha: &[char], out: &mut Vec<char>, recs: &mut Vec<(u8, *const G)>, depth: u32) {
     use G::*;
+    if out.len() > 40 {
+        // long enough: recursive grammars would otherwise sample exponentially long sentences
+        return;
+    }
     let anyc = |t: &mut Tape| alpha[t.pick(alpha.len())];
     match g {
         Just(s) | JustCfg(s) => out.extend(s.chars()),
